@@ -80,12 +80,12 @@ class UpdaterModel:
         # inlined paths reach ShmWrite::write
         cands = []
         for b in fb.bodies(common.DAEMON):
-            if b.defkind == 'Closure' or not b.back_edges():
+            if b.defkind == 'Closure' or not common.has_loop(fb, b):
                 continue
             # (the mailbox read may sit behind a private trait or helper: `ctx.next_message()`)
             if any(fn and (is_recv(mir.callee_name(fn)) or any(common.reaches_call(fb, nb, is_recv) for nb in common.callee_bodies(fb, fn)))
-                   for _, _, fn in common.user_calls(b)):
-                cands.append(b)
+                   for _, _, fn in common.user_calls(b)) or (not b.back_edges() and common.reaches_call(fb, b, is_recv)):
+                cands.append(b)       # (second form: the loop is an iterator chain, the receive sits in one of its closures)
         self.dispatch = None
         self.segment_problem = None
         for b in cands:
